@@ -546,6 +546,19 @@ where
     let wmap: std::collections::HashMap<i64, i64> = g.node_references().map(|r| (*r.weight() as i64, inv[&r.id()] as i64)).collect();
     f.insert("mst".into(), run(|| elements_json(algo::min_spanning_tree(g), &wmap)));
 }
+/// Kruskal through a NodeFiltered view (even abstract ids kept): judged on the node-induced subgraph
+fn c12_kruskal_nf<G>(g: G, inv: &std::collections::HashMap<G::NodeId, usize>, f: &mut Fields)
+where
+    G: IntoNodeReferences + IntoEdgeReferences + NodeIndexable + Copy + Data<NodeWeight = i32>,
+    G::EdgeWeight: EW,
+    G::NodeId: Eq + std::hash::Hash + Copy,
+{
+    let keep = |x: G::NodeId| inv.get(&x).map(|i| i % 2 == 0).unwrap_or(false);
+    let nf = petgraph::visit::NodeFiltered::from_fn(g, keep);
+    f.insert("nord_nf".into(), okv(json!((&nf).node_references().map(|r| inv[&r.id()]).collect::<Vec<_>>())));
+    let wmap: std::collections::HashMap<i64, i64> = g.node_references().map(|r| (*r.weight() as i64, inv[&r.id()] as i64)).collect();
+    f.insert("mst_nf".into(), run(|| elements_json(algo::min_spanning_tree(&nf), &wmap)));
+}
 fn c12_prim<G>(g: G, inv: &std::collections::HashMap<G::NodeId, usize>, f: &mut Fields)
 where
     G: IntoNodeReferences + IntoEdgeReferences + IntoEdges + NodeIndexable + Copy + Data<NodeWeight = i32>,
@@ -575,7 +588,8 @@ pub fn c12_graph(out: &mut Out, ag: &AG, rng: &mut Rng) {
     } else if rng.chance(1, 3) {
         each_enc!(out, "C12", ag, rng, f64, [graph, stable, csr, graph_nan], |g, _fwd, inv| body!(g, inv, true));
     } else {
-        each_enc!(out, "C12", ag, rng, [graph, stable, csr, map, matrixd, matrixu], |g, _fwd, inv| body!(g, inv, true));
+        each_enc!(out, "C12", ag, rng, [graph, stable], |g, _fwd, inv| { let mut f = body!(g, inv, true); c12_kruskal_nf(&g, &inv, &mut f); f });
+        each_enc!(out, "C12", ag, rng, [csr, map, matrixd, matrixu], |g, _fwd, inv| body!(g, inv, true));
     }
 }
 
